@@ -414,28 +414,94 @@ def rule_g(rep, g):
                 rep.ok(rule, key, 'may end at end of input', g.bodies['comment'].loc())
         else:
             rep.ok(rule, key, 'block comment delimited by */', g.bodies['comment'].loc())
-    # blank = many1(alt(comment, multispace1))
+    def strip(n):
+        while n.kind in ('map', 'recognize', 'complete') and n.kids:
+            n = n.kids[0]
+        return n
+
+    # blank = many1(alt(comment, multispace1)), in any arrangement of the alternatives / wrappers
     key = rule + '|blank'
     bt = g.trees.get('blank') or []
     r = repr(bt[0]) if bt else ''
-    if r == 'map(many1(alt(comment, multispace1)))':
+    x = strip(bt[0]) if bt else None
+    alts = set()
+    if x is not None and x.kind == 'many1':
+        y = strip(x.kids[0])
+        alts = {repr(strip(k)) for k in (y.kids if y.kind == 'alt' else [y])}
+    if alts == {'comment', 'multispace1'}:
         rep.ok(rule, key, r, g.bodies['blank'].loc())
     else:
-        rep.bad(rule, key, g.bodies['blank'].loc() if 'blank' in g.bodies else '', 'blank is no longer many1(alt(comment, multispace1)): %s' % r)
+        rep.bad(rule, key, g.bodies['blank'].loc() if 'blank' in g.bodies else '', 'blank is no longer one or more of {comment, multispace1}: %s' % r)
+    # list_separator = one of , ; followed by optional blank
     key = rule + '|list_separator'
     lt = g.trees.get('list_separator') or []
     r = repr(lt[0]) if lt else ''
-    if r == "map(seq(one_of(',;'), opt(blank)))":
+    x = strip(lt[0]) if lt else None
+    chars, tail_ok = None, False
+    if x is not None and x.kind == 'seq' and len(x.kids) == 2:
+        h = strip(x.kids[0])
+        m = re.match(r"one_of\('(.*)'\)$", h.text or '') if h.kind == 'cc' else None
+        if m:
+            chars = set(m.group(1))
+        elif h.kind == 'alt':
+            cs = set()
+            for k in h.kids:
+                k = strip(k)
+                if k.kind == 'tag' and len(k.text) == 1:
+                    cs.add(k.text)
+                else:
+                    m2 = re.match(r"char\('(.)'\)$", k.text or '') if k.kind == 'cc' else None
+                    cs.add(m2.group(1) if m2 else '?')
+            chars = cs
+        tail_ok = repr(x.kids[1]) == 'opt(blank)'
+    if chars == {',', ';'} and tail_ok:
         rep.ok(rule, key, r, g.bodies['list_separator'].loc())
     else:
-        rep.bad(rule, key, g.bodies['list_separator'].loc() if 'list_separator' in g.bodies else '', "list_separator is no longer one_of(',;') followed by optional blank: %s" % r)
+        rep.bad(rule, key, g.bodies['list_separator'].loc() if 'list_separator' in g.bodies else '', "list_separator is no longer one of ',' ';' followed by optional blank: %s" % r)
     key = rule + '|quotes'
     lit = g.trees.get('Literal') or []
     r = repr(lit[0]) if lit else ''
-    if r == 'alt(map(single_quote), map(double_quote))':
+    x = strip(lit[0]) if lit else None
+    qs = {repr(strip(k)) for k in x.kids} if x is not None and x.kind == 'alt' else set()
+    if qs == {'single_quote', 'double_quote'}:
         rep.ok(rule, key, 'both quote styles', g.bodies['Literal'].loc())
     else:
         rep.bad(rule, key, g.bodies['Literal'].loc() if 'Literal' in g.bodies else '', 'Literal no longer accepts both quote styles: %s' % r)
+
+
+def rule_s(rep, g):
+    """R15.s - the IDL leaves list separators free (comma, semicolon or none): every use of list_separator in the
+    grammar is optional. A separator that is the mandatory element of a sequence or the `sep` of separated_list0/1
+    rejects documents that merely omit it."""
+    rule = 'R15.s'
+    uses = 0
+
+    def visit(n, parent, name, idx):
+        nonlocal uses
+        if n.kind == 'ref' and n.text == 'list_separator':
+            uses += 1
+            key = '%s|%s|use %d' % (rule, name, sum(1 for k in seen if k[0] == name))
+            seen.append((name,))
+            if parent is not None and parent.kind == 'opt':
+                rep.ok(rule, key, 'opt(list_separator)', g.bodies[name].loc())
+            elif parent is not None and parent.kind in ('many0',):
+                rep.ok(rule, key, 'many0(list_separator)', g.bodies[name].loc())
+            elif parent is not None and parent.kind == 'seq' and parent.kids and parent.kids[0].kind == 'tag' and parent.kids[0].text == 'map' and any(k.kind == 'tag' and k.text == '<' for k in parent.kids):
+                # MapType ::= 'map' '<' FieldType ',' FieldType '>' : this comma is part of the type syntax, not a list separator
+                rep.ok(rule, key, "the comma of map<K, V> (required by the grammar)", g.bodies[name].loc())
+            else:
+                how = 'the separator of %s' % parent.extra if parent is not None and parent.kind == 'seplist' and idx == 0 else 'a mandatory element of %s' % (parent.kind if parent is not None else 'the parser')
+                rep.bad(rule, key, g.bodies[name].loc(), 'parser %s uses list_separator as %s: a list written without commas/semicolons (which the IDL allows) no longer parses' % (name, how))
+        for i, k in enumerate(n.kids):
+            visit(k, n, name, i)
+    seen = []
+    for name, trees in sorted(g.trees.items()):
+        if name == 'list_separator':
+            continue
+        for t in trees:
+            visit(t, None, name, 0)
+    if uses < 10:
+        rep.anchor_missing(rule, 'uses of list_separator in the grammar (found %d, expected >= 10)' % uses)
 
 
 def run(ctx):
@@ -458,5 +524,6 @@ def run(ctx):
     rule_d(rep, g)
     rule_e(rep, g)
     rule_f(rep, g, prog, cg)
+    rule_s(rep, g)
     rule_g(rep, g)
     return rep
